@@ -4,7 +4,7 @@ import random
 from . import common
 
 # tags whose findings legitimately stay separate (none at present)
-UNGROUPED_OK = set()
+UNGROUPED_OK = {"G41"}     # sameposition: line 14 carries two findings of different sources (one tag per line)
 
 from . import diaggen as dg
 from . import diag_suite as ds
